@@ -65,6 +65,8 @@ func c24Body(t *testing.T, sc c24Scenario) (func(), *c24Obs) {
 		cfg := Configuration{ICECandidatePoolSize: sc.Pool}
 		x := vNewPC(t, vNewAPI(t, vAPIOpts{}), &cfg)
 		x.OnICECandidate(func(c *ICECandidate) {
+			// a user handler takes time: other threads may run while it does (scheduling point)
+			vsched.Yield("user-handler")
 			if c == nil {
 				o.seq = append(o.seq, "nil")
 			} else {
@@ -198,8 +200,11 @@ func TestVerifC24(t *testing.T) {
 	scs := []c24Scenario{
 		{0, 2, "none", false}, {1, 2, "none", false}, {1, 1, "none", false}, {1, 0, "none", false},
 		{0, 2, "none", true}, {1, 2, "none", true}, {1, 2, "second-flush", true}, {0, 1, "second-flush", true}, {0, 1, "second-flush", false},
+		// enough candidates for a batch of two to be under report while two more are pooled (storage shared
+		// between the batch being reported and the live pool shows only then)
+		{1, 4, "none", true}, {1, 4, "none", false},
 	}
-	c.Rule(fmt.Sprintf("%d scenarios (candidate pool size 0/1 x 0-2 gathered candidates x SetLocalDescription on a PeerConnection or the gatherer seam, optionally a second flush); for each, every interleaving with <= %d preemptions of the agent callback thread (c1, c2, nil) with the flushing thread, exploration starting at quiescence after CreateOffer; oracle: the OnICECandidate sequence is the gathered candidates each once, then exactly one nil, nothing after; distinct = (scenario, reported sequence)", len(scs), bound))
+	c.Rule(fmt.Sprintf("%d scenarios (candidate pool size 0/1 x 0-4 gathered candidates x SetLocalDescription on a PeerConnection or the gatherer seam, optionally a second flush); for each, every interleaving with <= %d preemptions of the agent callback thread (c1, c2, nil) with the flushing thread, exploration starting at quiescence after CreateOffer; oracle: the OnICECandidate sequence is the gathered candidates each once, then exactly one nil, nothing after; distinct = (scenario, reported sequence)", len(scs), bound))
 	c.Set("preemption_bound", bound)
 	c.Assume("the ICE agent is environment: its candidate callback is captured and delivered by a harness thread with real ice.Candidate values in the order the agent would (candidates, then nil)")
 	deadline := c.Deadline(time.Duration(c.Pick(120, 900)) * time.Second)
